@@ -265,6 +265,7 @@ func runC11(c *Ctx) {
 		"internal/promapi.disabledChecks.read": "consumer runs after the fan-in loop (checked below)",
 	})
 	disabledChecksEscape(c, "C11-R4")
+	c11UnsupportedTables(c, "C11-R4")
 
 	// ---- R5 ----
 	for _, fn := range []string{"internal/reporter.ConsoleReporter.Submit", "internal/reporter.JSONReporter.Submit", "internal/reporter.Summary.ReportsPerPath", "internal/reporter.Summary.Reports"} {
@@ -472,7 +473,7 @@ func c11Globals(c *Ctx, R string) {
 	}
 	// stores into the shared parsed rule / PromQL AST: allowed only on values the function (or, for a
 	// pointer parameter, every caller) allocated itself, and never through a shared element or pointer field
-	nShared := 0
+	nShared, nSetup := 0, 0
 	isSharedType := func(owner string) bool {
 		if R == "C09-R4" {
 			// what match/ignore conditions read: the YAML side of a rule and the entry, not the PromQL tree
@@ -626,6 +627,33 @@ func c11Globals(c *Ctx, R string) {
 					}
 					first = false
 				}
+				// the server objects (failover groups, upstreams) are set up before the workers start and
+				// only read afterwards: a worker that rewrites one (reorders the upstream list, remembers
+				// the last good server) makes later answers depend on which check ran first
+				if R == "C11-R3" && root != nil {
+					setup := ""
+					for cur := ast.Unparen(l); cur != nil; {
+						switch x := cur.(type) {
+						case *ast.SelectorExpr:
+							if owner := fieldOwner(info, x); owner == "internal/promapi.FailoverGroup" || owner == "internal/promapi.Prometheus" {
+								setup = owner + "." + x.Sel.Name
+							}
+							cur = ast.Unparen(x.X)
+						case *ast.IndexExpr:
+							cur = ast.Unparen(x.X)
+						case *ast.StarExpr:
+							cur = ast.Unparen(x.X)
+						default:
+							cur = nil
+						}
+					}
+					if v, isVar := info.Uses[root].(*types.Var); setup != "" && isVar && !v.IsField() {
+						if _, isFresh := fresh[types.Object(v)]; !isFresh {
+							nSetup++
+							c.Bad(R, "store into "+setup+" in "+fi.Name, n.Pos(), "a function reachable from the check workers rewrites a field of a server object (failover group or upstream) that is shared by all workers and set up before they start: which upstream answers, and so the URI and result a problem quotes, then depends on which checks ran before (and the store races with the other workers)")
+						}
+					}
+				}
 				if root == nil || sharedField == "" {
 					continue
 				}
@@ -702,6 +730,9 @@ func c11Globals(c *Ctx, R string) {
 		})
 	}
 	c.Check(nShared == 0, R, "no stores into the shared rule/AST from worker-reachable code", token.NoPos, "0 stores", itoa(nShared)+" stores")
+	if R == "C11-R3" {
+		c.Check(nSetup == 0, R, "no stores into server objects from worker-reachable code", token.NoPos, "0 stores", itoa(nSetup)+" stores")
+	}
 	sort.Strings(names)
 	c.Check(len(reach) >= 100, R, "worker-reachable functions enumerated", token.NoPos, itoa(len(reach))+" functions reachable from scanWorker and the Check methods", "call-graph closure from the workers is implausibly small ("+itoa(len(reach))+")")
 	c.Check(nStores == 0, R, "no package-level stores in worker-reachable code", token.NoPos, "0 stores", itoa(nStores)+" stores")
@@ -983,4 +1014,121 @@ func c11ComparatorKeys(c *Ctx, R string) {
 			})
 		}
 	}
+}
+
+// c11UnsupportedTables: the record of APIs a server does not offer is written
+// by unsupporedAPIs.disable and read by unsupporedAPIs.isSupported, each with
+// a switch over the API path. The two tables agree: for every path constant the
+// flag that isSupported reads is the flag disable sets, and two paths never
+// share a flag. Otherwise a 404 seen by one check switches off an API another
+// check uses, and which rules get that check's problems depends on which
+// check happened to run first.
+func c11UnsupportedTables(c *Ctx, R string) {
+	is := c.MustFunc(R, "internal/promapi.unsupporedAPIs.isSupported")
+	dis := c.MustFunc(R, "internal/promapi.unsupporedAPIs.disable")
+	if is == nil || dis == nil {
+		return
+	}
+	table := func(fi *FuncInfo, stores bool) (map[string]string, bool) {
+		info := fi.Pkg.TypesInfo
+		sig := fi.Obj.Type().(*types.Signature)
+		if sig.Params().Len() != 1 {
+			return nil, false
+		}
+		par := types.Object(sig.Params().At(0))
+		pm := parentMap(fi.Decl.Body)
+		sets := map[string]map[string]bool{}
+		ok := true
+		note := func(sel *ast.SelectorExpr) {
+			// which API path is being handled here? the enclosing `s == CONST` / `case CONST` facts say
+			var consts []string
+			for _, g := range lexicalGuards(pm, sel, fi.Decl.Body) {
+				if !g.Truth {
+					continue
+				}
+				if g.Tag != nil {
+					if objOf(info, g.Tag) == par {
+						if v, isC := constString(info, g.E); isC {
+							consts = append(consts, v)
+						}
+					}
+					continue
+				}
+				if be, isBin := ast.Unparen(g.E).(*ast.BinaryExpr); isBin && be.Op == token.EQL {
+					for _, pr := range [][2]ast.Expr{{be.X, be.Y}, {be.Y, be.X}} {
+						if objOf(info, pr[0]) == par {
+							if v, isC := constString(info, pr[1]); isC {
+								consts = append(consts, v)
+							}
+						}
+					}
+				}
+			}
+			if len(consts) == 0 {
+				ok = false
+				return
+			}
+			for _, k := range consts {
+				if sets[k] == nil {
+					sets[k] = map[string]bool{}
+				}
+				sets[k][sel.Sel.Name] = true
+			}
+		}
+		ast.Inspect(fi.Decl.Body, func(m ast.Node) bool {
+			if stores {
+				if as, isAs := m.(*ast.AssignStmt); isAs {
+					for _, l := range as.Lhs {
+						if sel, isSel := ast.Unparen(l).(*ast.SelectorExpr); isSel && fieldOwner(info, sel) == "internal/promapi.unsupporedAPIs" {
+							note(sel)
+						}
+					}
+				}
+				return true
+			}
+			if sel, isSel := m.(*ast.SelectorExpr); isSel && fieldOwner(info, sel) == "internal/promapi.unsupporedAPIs" {
+				if _, isVar := info.Uses[sel.Sel].(*types.Var); isVar && sel.Sel.Name != "mtx" {
+					note(sel)
+				}
+			}
+			return true
+		})
+		out := map[string]string{}
+		for k, fs := range sets {
+			var fl []string
+			for f := range fs {
+				fl = append(fl, f)
+			}
+			sort.Strings(fl)
+			out[k] = strings.Join(fl, "+")
+		}
+		return out, ok && len(out) > 0
+	}
+	rt, ok1 := table(is, false)
+	wt, ok2 := table(dis, true)
+	if !ok1 || !ok2 {
+		c.Undecided(R, "unsupporedAPIs:tables", is.Decl.Pos(), "a flag of unsupporedAPIs is read or set outside a branch that compares the API path with a constant")
+		return
+	}
+	var keys []string
+	for k := range rt {
+		keys = append(keys, k)
+	}
+	for k := range wt {
+		if _, dup := rt[k]; !dup {
+			keys = append(keys, k)
+		}
+	}
+	sort.Strings(keys)
+	usedBy := map[string]string{}
+	for _, k := range keys {
+		r, w := rt[k], wt[k]
+		c.Check(r != "" && r == w && !strings.Contains(r, "+"), R, "unsupporedAPIs:"+k+" read and recorded under one flag", is.Decl.Pos(), r,
+			"isSupported answers for "+k+" from `"+r+"` while disable records it in `"+w+"`: an API that failed for one kind of query switches off (or fails to switch off) another, and the outcome depends on which check reached the server first")
+		if prev, dup := usedBy[r]; dup && r != "" {
+			c.Bad(R, "unsupporedAPIs:"+k+" shares a flag", is.Decl.Pos(), k+" and "+prev+" are both kept in `"+r+"`")
+		}
+		usedBy[r] = k
+	}
+	c.Check(len(keys) >= 3, R, "unsupporedAPIs:paths enumerated", is.Decl.Pos(), itoa(len(keys)), "fewer than 3 API paths")
 }
